@@ -584,8 +584,96 @@ func (c *c18) newCoinsWithZeros() {
 	rec(0, nil)
 }
 
+// decCoins: the decimal coin sets obey the same rules: every pair of sets over four denominations
+// with amounts {absent, 0.5, 2} (so that the denominations of the two operands interleave in every
+// way): Add is the per-denomination sum in canonical form, Sub / SafeSub its inverse.
+func (c *c18) decCoins() {
+	denoms := []string{"aaa", "bbb", "ccc", "ddd"}
+	amts := []int64{0, 5, 20} // tenths
+	type dset [4]int64
+	var sets []dset
+	for _, w := range amts {
+		for _, x := range amts {
+			for _, y := range amts {
+				for _, z := range amts {
+					sets = append(sets, dset{w, x, y, z})
+				}
+			}
+		}
+	}
+	mk := func(s dset) sdk.DecCoins {
+		var cs sdk.DecCoins
+		for i, a := range s {
+			if a != 0 {
+				cs = append(cs, sdk.NewDecCoinFromDec(denoms[i], sdk.NewDecWithPrec(a, 1)))
+			}
+		}
+		return cs
+	}
+	same := func(got sdk.DecCoins, want dset) bool {
+		n := 0
+		for i, a := range want {
+			if a != 0 {
+				n++
+			}
+			if !got.AmountOf(denoms[i]).Equal(sdk.NewDecWithPrec(a, 1)) {
+				return false
+			}
+		}
+		if len(got) != n {
+			return false // duplicates or zero entries
+		}
+		for i := 1; i < len(got); i++ {
+			if got[i-1].Denom >= got[i].Denom {
+				return false
+			}
+		}
+		return true
+	}
+	for _, A := range sets {
+		for _, B := range sets {
+			a, b := mk(A), mk(B)
+			rep := map[string]string{"op": "DecCoins", "a": a.String(), "b": b.String()}
+			c.eval++
+			var sum sdk.DecCoins
+			if p, msg := try(func() { sum = a.Add(b) }); p {
+				c.fail("C18/DecCoins.Add/panic", fmt.Sprintf("(%s).Add(%s) panicked: %s", a, b, msg), rep)
+				continue
+			}
+			if !same(sum, dset{A[0] + B[0], A[1] + B[1], A[2] + B[2], A[3] + B[3]}) {
+				c.fail("C18/DecCoins.Add/wrong-result", fmt.Sprintf("(%s).Add(%s) = %s", a, b, sum), rep)
+				continue
+			}
+			c.eval++
+			var back sdk.DecCoins
+			if p, msg := try(func() { back = sum.Sub(b) }); p {
+				c.fail("C18/DecCoins.AddSub/panic", fmt.Sprintf("(%s).Sub(%s) panicked: %s", sum, b, msg), rep)
+			} else if !same(back, A) {
+				c.fail("C18/DecCoins.AddSub/not-inverse", fmt.Sprintf("((%s).Add(%s)).Sub(%s) = %s", a, b, b, back), rep)
+			}
+			c.eval++
+			neg := false
+			for i := range A {
+				if A[i] < B[i] {
+					neg = true
+				}
+			}
+			var hasNeg bool
+			if p, msg := try(func() { _, hasNeg = a.SafeSub(b) }); p {
+				c.fail("C18/DecCoins.SafeSub/panic", fmt.Sprintf("(%s).SafeSub(%s) panicked: %s", a, b, msg), rep)
+			} else if hasNeg != neg {
+				c.fail("C18/DecCoins.SafeSub/flag", fmt.Sprintf("(%s).SafeSub(%s): negative flag %v, want %v", a, b, hasNeg, neg), rep)
+			}
+			if a.String() != mk(A).String() || b.String() != mk(B).String() {
+				c.fail("C18/DecCoins/operand-mutated", fmt.Sprintf("operands changed: %s / %s", a, b), rep)
+			}
+		}
+	}
+}
+
 func (c *c18) coins() {
 	c.newCoinsWithZeros()
+	c.decCoins()
 	amts := []int64{0, 1, 2, 5}
 	var sets []coinSet
 	for _, x := range amts {
